@@ -115,6 +115,8 @@ def check_property(prop, tier, seed, spec):
             'fn_budget_s': 420 if tier == 'quick' else 3000,
             'dump_dir': os.path.join(ROOT, 'replays', prop, 'smt2')}
     keys = [k for k in spec['functions'] if k in reg.contracts and not reg.contracts[k].trusted]
+    if os.environ.get('VERIF_ONLY'):      # developer aid (not used by registered commands): restrict the cone
+        keys = [k for k in keys if re.search(os.environ['VERIF_ONLY'], k)]
     missing = [k for k in spec['functions'] if k not in reg.contracts]
     results = verify_functions(keys, opts)
     sel = [re.compile(p) for p in spec.get('select', ['.'])]
